@@ -168,66 +168,80 @@ Inductive input :=
 | Chunk (bs : list Z)        (* one blocking read returned these bytes *)
 | Eof.                       (* the read ended *)
 
-Record lstate := {
-  l_eng : engine;
-  l_keys : keys;
-  l_log : list (list Z * list Z)     (* (action, Keys.Caller()) of every command run, oldest first *)
-}.
+Section Loop.
+  (* the state commands act on, and the commands: `exec action caller_keys a` is None
+     when Keymap.Commands() has no such command (nothing runs), else the new state and
+     whether the line was accepted (Readline returns) *)
+  Variable A : Type.
+  Variable exec : list Z -> list Z -> A -> option (A * bool).
 
-Inductive outcome :=
-| Waiting (st : lstate)      (* blocked in the read, no input left in the script *)
-| Ended (st : lstate)        (* input ended: the model stops here (what the real loop does next is C01's) *)
-| NoFuel (st : lstate).
+  Record lstate := {
+    l_eng : engine;
+    l_keys : keys;
+    l_app : A
+  }.
 
-(* WaitAvailableKeys: Some (keys, rest of inputs), or None when it must block *)
-Definition wait_keys (convert_meta_on : bool) (k : keys) (ins : list input)
-  : option (keys * list input * bool) :=
-  match k_buf k, k_must_wait k with
-  | _ :: _, false => Some (k, ins, false)
-  | _, _ =>
-    match k_macro k with
-    | _ :: _ => Some (k, ins, false)
-    | [] =>
-      match ins with
-      | [] => None
-      | Eof :: r => Some (k, r, true)
-      | Chunk bs :: r =>
-        let bs := if convert_meta_on then utf8_encode (convert_meta (utf8_decode bs)) else bs in
-        Some ({| k_buf := k_buf k ++ bs; k_macro := k_macro k; k_matched := k_matched k; k_must_wait := k_must_wait k |},
-              r, false)
+  Inductive outcome :=
+  | Waiting (st : lstate)      (* blocked in the read, no input left in the script *)
+  | Returned (st : lstate)     (* a command accepted the line: Readline returns *)
+  | Ended (st : lstate)        (* input ended: the model stops here (what the real loop does next is C01's) *)
+  | NoFuel (st : lstate).
+
+  (* WaitAvailableKeys: Some (keys, rest of inputs, ended), or None when it must block *)
+  Definition wait_keys (convert_meta_on : bool) (k : keys) (ins : list input)
+    : option (keys * list input * bool) :=
+    match k_buf k, k_must_wait k with
+    | _ :: _, false => Some (k, ins, false)
+    | _, _ =>
+      match k_macro k with
+      | _ :: _ => Some (k, ins, false)
+      | [] =>
+        match ins with
+        | [] => None
+        | Eof :: r => Some (k, r, true)
+        | Chunk bs :: r =>
+          let bs := if convert_meta_on then utf8_encode (convert_meta (utf8_decode bs)) else bs in
+          Some ({| k_buf := k_buf k ++ bs; k_macro := k_macro k; k_matched := k_matched k; k_must_wait := k_must_wait k |},
+                r, false)
+        end
       end
-    end
-  end.
+    end.
 
-(* `registered a` tells whether Keymap.Commands() has the action (a nil command runs nothing) *)
-Fixpoint loop (fuel : nat) (cm : bool) (t : table) (registered : list Z -> bool)
-         (st : lstate) (ins : list input) : outcome :=
-  match fuel with
-  | O => NoFuel st
-  | S f =>
-    let k := flush_used (l_keys st) in
-    match wait_keys cm k ins with
-    | None => Waiting {| l_eng := l_eng st; l_keys := k; l_log := l_log st |}
-    | Some (k, ins, true) => Ended {| l_eng := l_eng st; l_keys := k; l_log := l_log st |}
-    | Some (k, ins, false) =>
-      match k_buf k, k_macro k with
-      | [], [] => loop f cm t registered {| l_eng := l_eng st; l_keys := k; l_log := l_log st |} ins  (* empty chunk *)
-      | _, _ =>
-        let '(e, k, b, prefix) := match_main t (l_eng st) k in
-        if prefix then loop f cm t registered {| l_eng := e; l_keys := k; l_log := l_log st |} ins
-        else
-          let k := if snd b then feed k (unescape (fst b)) else k in
-          let log := if negb (snd b) && is_bound b && registered (fst b)
-                     then l_log st ++ [(fst b, k_matched k)] else l_log st in
-          loop f cm t registered {| l_eng := e; l_keys := k; l_log := log |} ins
+  Fixpoint loop (fuel : nat) (cm : bool) (t : table) (st : lstate) (ins : list input) : outcome :=
+    match fuel with
+    | O => NoFuel st
+    | S f =>
+      let k := flush_used (l_keys st) in
+      match wait_keys cm k ins with
+      | None => Waiting {| l_eng := l_eng st; l_keys := k; l_app := l_app st |}
+      | Some (k, ins, true) => Ended {| l_eng := l_eng st; l_keys := k; l_app := l_app st |}
+      | Some (k, ins, false) =>
+        match k_buf k, k_macro k with
+        | [], [] => loop f cm t {| l_eng := l_eng st; l_keys := k; l_app := l_app st |} ins  (* empty read *)
+        | _, _ =>
+          let '(e, k, b, prefix) := match_main t (l_eng st) k in
+          if prefix then loop f cm t {| l_eng := e; l_keys := k; l_app := l_app st |} ins
+          else
+            let k := if snd b then feed k (unescape (fst b)) else k in
+            if negb (snd b) && is_bound b then
+              match exec (fst b) (k_matched k) (l_app st) with
+              | Some (a, true) => Returned {| l_eng := e; l_keys := k; l_app := a |}
+              | Some (a, false) => loop f cm t {| l_eng := e; l_keys := k; l_app := a |} ins
+              | None => loop f cm t {| l_eng := e; l_keys := k; l_app := l_app st |} ins
+              end
+            else loop f cm t {| l_eng := e; l_keys := k; l_app := l_app st |} ins
+        end
       end
-    end
-  end.
+    end.
 
-Definition init_state (vi : bool) : lstate :=
-  {| l_eng := {| e_active := no_bind; e_prefixed := no_bind; e_vi := vi |};
-     l_keys := {| k_buf := []; k_macro := []; k_matched := []; k_must_wait := false |};
-     l_log := [] |}.
+  Definition init_state (vi : bool) (a : A) : lstate :=
+    {| l_eng := {| e_active := no_bind; e_prefixed := no_bind; e_vi := vi |};
+       l_keys := {| k_buf := []; k_macro := []; k_matched := []; k_must_wait := false |};
+       l_app := a |}.
+End Loop.
 
-Definition total_len (ins : list input) : nat :=
-  fold_left (fun n i => match i with Chunk bs => (n + length bs)%nat | Eof => n end) ins 0%nat.
+(* probe commands: every invocation is logged with the keys that called it *)
+Definition probe_log := list (list Z * list Z).
+Definition probe_exec (registered : list Z -> bool) (act keys : list Z) (log : probe_log)
+  : option (probe_log * bool) :=
+  if registered act then Some (log ++ [(act, keys)], false) else None.
